@@ -496,9 +496,21 @@ class Evaluator:
     def _prefix_store(self, base, idx, v) -> Optional[Val]:
         """`buf[:L] = a` on a freshly filled buffer of N copies of c, with L = len(a): the array a ++ fill(c, N - L)"""
         bt = arr_identity(base) if isinstance(base, Num) else base
+        bt = _as_fill(bt)
+        if isinstance(bt, Term) and bt.head == 'cat' and isinstance(idx, Num) and idx.length is None and bt.args:
+            # `buf[-1] = v` where the buffer is  <known elements> ++ one still unfilled slot
+            last = _as_fill(bt.args[-1])
+            total = term_as_num(bt, True).length
+            ix = total + idx.r if neg_const_index(idx.r) else idx.r
+            if isinstance(last, Term) and last.head == 'fill' and last.args[1].r == C(1) and ix == total - C(1) and isinstance(v, Num) and v.length is None:
+                out = mk_cat(list(bt.args[:-1]) + [v])
+                return term_as_num(out, True, 'ndarray') if isinstance(base, Num) else out
+            return None
         if not (isinstance(bt, Term) and bt.head == 'fill' and isinstance(idx, Term) and idx.head == 'slice' and len(idx.args) == 3):
             return None
         lo, hi, step = idx.args
+        if isinstance(hi, Num) and hi.length is None and neg_const_index(hi.r):
+            hi = Num(bt.args[1].r + hi.r)
         if not ((isinstance(lo, Const) and lo.v is None) or (isinstance(lo, Num) and lo.is_const() and lo.const() == 0)):
             return None
         if not (isinstance(step, Const) and step.v is None) or not isinstance(hi, Num) or hi.length is not None:
@@ -2079,6 +2091,16 @@ def h_isscalar(ev, pos, kw, st, node):
 
 def h_path_join(ev, pos, kw, st, node):
     return Term('lib:os.path.join', pos, (), kind='str')
+
+
+def _as_fill(t):
+    """a freshly allocated 1-D buffer as `fill(content, n)` (empty: content not yet defined)"""
+    if isinstance(t, Term) and t.head in ('lib:numpy.empty', 'lib:numpy.zeros', 'lib:numpy.ones') and not t.head.endswith('_like'):
+        shp = t.kw('shape') if t.kw('shape') is not None else (t.args[0] if t.args else None)
+        if isinstance(shp, Num) and shp.length is None:
+            content = {'lib:numpy.empty': Const('<uninitialised>'), 'lib:numpy.zeros': Num(C(0)), 'lib:numpy.ones': Num(C(1))}[t.head]
+            return Term('fill', (content, shp), kind='ndarray')
+    return t
 
 
 def h_partial(ev, pos, kw, st, node):
